@@ -149,3 +149,45 @@ def set_reward_emissions_task(v2, idx):
         ctx.add(f'M:{tag}:vacuity', 'M', 'discharged' if n_ok else 'fault', 0, f'{n_ok} successful paths', False)
         ctx.discharge(obls)
     return task
+
+
+def update_emissions_task(ctx):
+    """Whirlpool::update_emissions from an arbitrary pool state: the accrued reward infos of ALL three rewards and the timestamp are stored, then only the
+    chosen reward's rate changes; an index >= 3 is rejected and changes nothing"""
+    obls = []
+    T.reset()
+    e = M.Engine(ctx.mir())
+    H.install(e)
+    for idx in (0, 1, 2, 3):
+        pre = e.havoc.value('Whirlpool', f'wp{idx}')
+        fr0 = M.Frame(None); fr0.loc = {'_900': pre}
+        infos = e.havoc.value('[WhirlpoolRewardInfo; 3]', f'acc{idx}')
+        ts = T.var(f'ts{idx}', 0, 2**64 - 1); em = T.var(f'em{idx}', 0, 2**128 - 1)
+        outs = list(e.run('Whirlpool::update_emissions', [M.Ref(fr0, '_900'), I(C(idx), 'usize'), infos, I(ts, 'u64'), I(em, 'u128')], Path()))
+        tag = f'update_emissions:index{idx}'
+        if len(outs) != 1 or isinstance(outs[0][1], Panic):
+            o = M.Obligation(f'{tag}:single_path_no_panic', [], FALSE, note=str(outs)[:200]); o.replay = None; obls.append(o); continue
+        p, r = outs[0]
+        post = e.last_ext[0]
+        if idx >= 3:
+            o = M.Obligation(f'{tag}:invalid_index_rejected', p.pc, TRUE if (isinstance(r, E) and r.var == 'Err') else FALSE); o.replay = None; obls.append(o)
+            same = [T.cmp('=', post.get('reward_last_updated_timestamp').t, pre.get('reward_last_updated_timestamp').t)]
+            for j in range(3):
+                for f in ('growth_global_x64', 'emissions_per_second_x64'):
+                    same.append(T.cmp('=', post.get('reward_infos').items[j].get(f).t, pre.get('reward_infos').items[j].get(f).t))
+            o = M.Obligation(f'{tag}:state_unchanged_on_error', p.pc, T.and_(*same)); o.replay = None; obls.append(o)
+            continue
+        o = M.Obligation(f'{tag}:ok', p.pc, TRUE if (isinstance(r, E) and r.var == 'Ok') else FALSE); o.replay = None; obls.append(o)
+        goals = [T.cmp('=', post.get('reward_last_updated_timestamp').t, ts)]
+        for j in range(3):
+            pj, aj = post.get('reward_infos').items[j], infos.items[j]
+            goals.append(T.cmp('=', pj.get('growth_global_x64').t, aj.get('growth_global_x64').t))
+            goals.append(T.cmp('=', pj.get('emissions_per_second_x64').t, em if j == idx else aj.get('emissions_per_second_x64').t))
+            for f in ('mint', 'vault'):
+                goals.append(T.cmp('=', pj.get(f).t, aj.get(f).t))
+        o = M.Obligation(f'{tag}:all_rewards_settled_then_only_this_rate_changes', p.pc, T.and_(*goals),
+                         note='growth_global of every reward = the accrued value passed in, timestamp = now, emissions changed for the chosen reward only'); o.replay = None; obls.append(o)
+        for f in ('liquidity', 'sqrt_price', 'fee_growth_global_a', 'fee_growth_global_b', 'protocol_fee_owed_a', 'protocol_fee_owed_b', 'tick_current_index'):
+            o = M.Obligation(f'{tag}:{f}_untouched', p.pc, T.cmp('=', post.get(f).t, pre.get(f).t)); o.replay = None; obls.append(o)
+    ctx.functions.update(e.executed)
+    ctx.discharge(obls)
